@@ -15,6 +15,7 @@ import (
 	"fmt"
 	"io"
 	"net"
+	"os"
 	"strconv"
 	"strings"
 	"sync"
@@ -465,6 +466,64 @@ func (c vfc18Cmd) tok() string {
 		parts = append(parts, vfutil.Hex(a))
 	}
 	return strings.Join(parts, ",")
+}
+
+// rtok: tok() plus what the generator knows — K<i.j>=<cmd> (known command, key positions),
+// U=<cmd> (unknown to the tables: fall-back only); corpus lines and replay files use it
+func (c vfc18Cmd) rtok() string {
+	switch {
+	case c.Known && c.Class == "known":
+		idx := make([]string, len(c.Truth))
+		for i, x := range c.Truth {
+			idx[i] = strconv.Itoa(x)
+		}
+		return "K" + strings.Join(idx, ".") + "=" + c.tok()
+	case c.Class == "unknown":
+		return "U=" + c.tok()
+	}
+	return c.tok()
+}
+
+func vfc18RToks(cmds []vfc18Cmd) string {
+	p := make([]string, len(cmds))
+	for i, c := range cmds {
+		p[i] = c.rtok()
+	}
+	return strings.Join(p, " ")
+}
+
+func vfc18ParseRToks(toks []string) []vfc18Cmd {
+	var cmds []vfc18Cmd
+	for _, tok := range toks {
+		var truthIdx []int
+		hasTruth, unknown := false, false
+		if strings.HasPrefix(tok, "U=") {
+			unknown, tok = true, tok[2:]
+		} else if strings.HasPrefix(tok, "K") && strings.Contains(tok, "=") {
+			eq := strings.Index(tok, "=")
+			for _, x := range strings.Split(tok[1:eq], ".") {
+				if n, err := strconv.Atoi(x); err == nil {
+					truthIdx = append(truthIdx, n)
+				}
+			}
+			tok = tok[eq+1:]
+			hasTruth = true
+		}
+		parts := strings.Split(tok, ",")
+		c := vfc18Cmd{Name: string(vfutil.UnHex(parts[0])), Class: "corpus"}
+		for _, p := range parts[1:] {
+			c.Args = append(c.Args, vfutil.UnHex(p))
+		}
+		c.Truth = []int{}
+		if hasTruth {
+			c.Truth, c.Known, c.Class = truthIdx, true, "known"
+		}
+		if unknown {
+			c.Class = "unknown"
+		}
+		cmds = append(cmds, c)
+	}
+	return cmds
 }
 
 func vfc18Filler(r *vfutil.Rand) []byte {
@@ -1010,7 +1069,7 @@ func (w *vfc18World) replayOne(r *vfutil.Rand, cmds []vfc18Cmd, fb string, src s
 	for _, c := range cmds {
 		w.nodes.register(c)
 	}
-	replay := map[string]interface{}{"cmds": toks, "fb": fb}
+	replay := map[string]interface{}{"cmds": toks, "rcmds": vfc18RToks(cmds), "fb": fb}
 	resolver := func(cmd string, args [][]byte) ([]string, bool, error) {
 		return resolveBisyncCommandKeys(&vfc18Introspector{fb: fb}, cmd, args)
 	}
@@ -1149,6 +1208,89 @@ func (w *vfc18World) replayOne(r *vfutil.Rand, cmds []vfc18Cmd, fb string, src s
 	}
 }
 
+func vfc18OkEmpty(cmd string, args [][]byte) ([]string, bool, error) {
+	if keys, ok, _ := defaultBisyncCommandKeyResolver(cmd, args); ok {
+		return keys, true, nil
+	}
+	return nil, true, nil
+}
+
+// replayFile re-runs the one case a replay file (replays/C18-*.json) describes.
+func (w *vfc18World) replayFile(t *testing.T, r *vfutil.Rand, path string) bool {
+	s := w.s
+	raw, err := os.ReadFile(path)
+	if err != nil {
+		t.Fatalf("replay file: %v", err)
+	}
+	var doc struct {
+		What   string                 `json:"what"`
+		Replay map[string]interface{} `json:"replay"`
+	}
+	if err := json.Unmarshal(raw, &doc); err != nil {
+		t.Fatalf("replay file: %v", err)
+	}
+	m := doc.Replay
+	str := func(k string) string {
+		if v, ok := m[k]; ok {
+			return fmt.Sprint(v)
+		}
+		return ""
+	}
+	flag := func(k string) bool { v, _ := m[k].(bool); return v }
+	num := func(k string) int { v, _ := m[k].(float64); return int(v) }
+	switch {
+	case str("txns") != "":
+		var txns []vfc18LoopTxn
+		for _, part := range strings.Split(str("txns"), " | ") {
+			cmds := vfc18ParseRToks(strings.Fields(part))
+			tb, tc := vfc18TruthOf(cmds, str("fb_builder")), vfc18TruthOf(cmds, str("fb_client"))
+			txns = append(txns, vfc18LoopTxn{cmds: cmds, accept: tb.Determined && tb.OneSlot && tc.Determined && tc.OneSlot, builderOK: tb.Determined && tb.OneSlot})
+		}
+		for i := 0; i < 3; i++ { // timing may matter: a few times
+			w.loopCase(r, config.ReplayMode(str("mode")), str("fb_builder"), str("fb_client"), str("inject"), txns)
+		}
+		s.Count("replayed_loop_case")
+	case m["rdb"] != nil:
+		w.rdbCase(vfc18RdbCase{Replace: flag("replaceHashTag"), Restore: flag("restore"), FirstBin: flag("firstBin"), Splited: flag("splited"),
+			CanRestore: flag("canRestore"), Expire: flag("expire"), KeyExists: str("keyExists"), Key: vfutil.UnHex(str("key")), Kind: num("kind"), N: num("n")}, 0)
+		s.Count("replayed_rdb_case")
+	case m["shards"] != nil:
+		w.globalCases(r, 20) // the case is the slot layout, drawn again: the lane has no other input
+		s.Count("replayed_global_cases")
+	case str("rcmds") != "" || str("cmds") != "":
+		toks := str("rcmds")
+		if toks == "" {
+			toks = str("cmds")
+		}
+		cmds := vfc18ParseRToks(strings.Fields(toks))
+		switch {
+		case m["okempty"] != nil:
+			_, berr := buildBisyncReplayUnitWithMode(1, 0, 1, false, vfc18OkEmpty, vfc18AofCmds(cmds), bisyncSlotMode{})
+			if tr := vfc18TruthOf(cmds, "none"); berr == nil && tr.Judgeable && !(tr.Determined && tr.OneSlot) {
+				s.Violate("unit-accepted-undetermined", "builder accepted (replayed case)", m)
+			}
+		case m["txn_only"] != nil:
+			for i := 0; i < 24; i++ { // slot-map holes are drawn per call
+				w.txnOne(r, cmds, str("fb"), errVfc18NoVerdict, m)
+			}
+		default:
+			fb := str("fb")
+			if fb == "" {
+				fb = "none"
+			}
+			for i := 0; i < 24; i++ { // commit kind and slot-map holes are drawn per call
+				w.replayOne(r, cmds, fb, "replay")
+			}
+		}
+		s.Count("replayed_cmds_case")
+	default:
+		s.Count("replay_file_not_rerunnable")
+		t.Logf("replay file %s (%s) describes a table/wiring check that every run repeats; running the whole suite", path, doc.What)
+		return false
+	}
+	return true
+}
+
 func TestVerifC18(t *testing.T) {
 	s := vfutil.NewSession("C18")
 	defer s.Close()
@@ -1205,6 +1347,12 @@ func TestVerifC18(t *testing.T) {
 		}
 	}()
 
+	if rp := os.Getenv("VERIF_REPLAY"); rp != "" {
+		if w.replayFile(t, r, rp) {
+			return
+		}
+	}
+
 	// ---- commit shapes (dispatch order) with a recording batcher, all three kinds
 	for i := 0; i < vfutil.Scale(300, 3000); i++ {
 		cmds := vfc18GenTxn(r)
@@ -1244,20 +1392,33 @@ func TestVerifC18(t *testing.T) {
 
 	// ---- builder branches the tool's own resolver cannot reach: a custom
 	// resolver answering ok with no keys, and the empty command list
-	okEmpty := func(cmd string, args [][]byte) ([]string, bool, error) {
-		if keys, ok, _ := defaultBisyncCommandKeyResolver(cmd, args); ok {
-			return keys, true, nil
-		}
-		return nil, true, nil
-	}
-	for i := 0; i < vfutil.Scale(200, 2000); i++ {
+	okEmpty := vfc18OkEmpty
+	for i := 0; i < vfutil.Scale(600, 6000); i++ {
 		cmds := vfc18GenTxn(r)
+		if i%3 == 0 && len(cmds) >= 1 {
+			// a command outside the tables behind / between single-slot ones (its argument on the same tag: only "no keys" can refuse it)
+			k0 := []byte("k{a}")
+			for _, c := range cmds {
+				if c.Known && len(c.Truth) > 0 {
+					k0 = c.Args[c.Truth[0]]
+				}
+			}
+			u := vfc18Cmd{Name: "custom.write", Args: [][]byte{k0}, Class: "unknown"}
+			pos := r.Intn(len(cmds) + 1)
+			cmds = append(cmds[:pos:pos], append([]vfc18Cmd{u}, cmds[pos:]...)...)
+		}
 		_, berr := buildBisyncReplayUnitWithMode(1, 0, 1, false, okEmpty, vfc18AofCmds(cmds), bisyncSlotMode{})
 		res := vfc18BuildErr(berr)
 		if berr == nil {
 			res = "ok"
 		}
 		s.Count("okempty_" + res)
+		// a command for which the resolver names no key is undetermined, wherever it stands in the transaction
+		// (the tool's own resolver never answers "ok, no keys"; a custom one may)
+		if tr := vfc18TruthOf(cmds, "none"); berr == nil && tr.Judgeable && !(tr.Determined && tr.OneSlot) {
+			s.Violate("unit-accepted-undetermined", fmt.Sprintf("with a resolver that answers 'no keys' for commands outside the tables, the builder accepted a transaction with such a command or with keys on several slots (determined=%v oneSlot=%v)", tr.Determined, tr.OneSlot),
+				map[string]interface{}{"cmds": vfc18Toks(cmds), "rcmds": vfc18RToks(cmds), "okempty": 1})
+		}
 		if berr == nil {
 			u, _ := buildBisyncReplayUnitWithMode(1, 0, 1, false, okEmpty, vfc18AofCmds(cmds), bisyncSlotMode{})
 			s.Op("c18 build c okempty "+vfc18Toks(cmds), fmt.Sprintf("ok slot=%d tag=%s n=%d", u.Slot, vfutil.HexS(u.SlotTag), len(u.Commands)))
@@ -1281,32 +1442,7 @@ func TestVerifC18(t *testing.T) {
 		if len(f) < 2 {
 			continue
 		}
-		var cmds []vfc18Cmd
-		for _, tok := range f[1:] {
-			// optional key positions known to whoever wrote the line: K0.2=<cmd>
-			var truthIdx []int
-			hasTruth := false
-			if strings.HasPrefix(tok, "K") && strings.Contains(tok, "=") {
-				eq := strings.Index(tok, "=")
-				for _, x := range strings.Split(tok[1:eq], ".") {
-					if n, err := strconv.Atoi(x); err == nil {
-						truthIdx = append(truthIdx, n)
-					}
-				}
-				tok = tok[eq+1:]
-				hasTruth = true
-			}
-			parts := strings.Split(tok, ",")
-			c := vfc18Cmd{Name: string(vfutil.UnHex(parts[0])), Class: "corpus"}
-			for _, p := range parts[1:] {
-				c.Args = append(c.Args, vfutil.UnHex(p))
-			}
-			c.Truth = []int{}
-			if hasTruth {
-				c.Truth, c.Known, c.Class = truthIdx, true, "known"
-			}
-			cmds = append(cmds, c)
-		}
+		cmds := vfc18ParseRToks(f[1:])
 		w.replayOne(r, cmds, f[0], "corpus")
 	}
 	fbs := []string{"none", "none", "none", "err", "first", "all", "empty"}
@@ -1323,7 +1459,8 @@ func TestVerifC18(t *testing.T) {
 			sp.Args = append(sp.Args, vfc18Key(r, []byte("a")))
 		}
 		cmds = append(cmds[:pos:pos], append([]vfc18Cmd{sp}, cmds[pos:]...)...)
-		w.txnOne(r, cmds, vfutil.Pick(r, fbs), errVfc18NoVerdict, map[string]interface{}{"cmds": vfc18Toks(cmds)})
+		sfb := vfutil.Pick(r, fbs)
+		w.txnOne(r, cmds, sfb, errVfc18NoVerdict, map[string]interface{}{"cmds": vfc18Toks(cmds), "rcmds": vfc18RToks(cmds), "fb": sfb, "txn_only": 1})
 		s.Count("txn_special_" + strings.ToLower(sp.Name))
 	}
 	// filter-reduced transactions: the real key filter projects DEL/UNLINK/MSET
